@@ -11,8 +11,10 @@ open Transc
 variable {α : Type} [Add α] [Sub α] [Mul α] [Div α] [Neg α] [OfScientific α]
   [LT α] [DecidableLT α] [LE α] [DecidableLE α] [Transc α]
 
-/-- `w` is the degeneracy notice of a request of `es` whose residual or Jacobian evaluation at some
-assignment of the right length raised the flag. -/
+/-- `w` names a request of `es` whose residual or Jacobian evaluation raises the flag at SOME
+assignment of the right length (not necessarily one the run visited, and `w.content` is not
+constrained): the weak form.  The strong form, tied to the iterates of the run, is
+`DegenerateAtVisited` in `Ezpz/Proofs/Visited.lean`. -/
 def DegenerateFrom (es : List (Entry α)) (n : Nat) (w : Warning α) : Prop :=
   ∃ e ∈ es, w.about = some e.id ∧ (∃ x : List α, x.length = n ∧
     ((∃ r, e.c.residual (lookup x) = some r ∧ r.degenerate = true) ∨
@@ -128,8 +130,10 @@ theorem newtonStep_warnings (es : List (Entry α)) (cfg : Config α)
     · exact hnew w (residualAll_warnings x es rs w1 h1 w hw)
     · exact hnew w (jacobianFrom_warnings _ x es 0 jac w2 h2 w hw)
 
-/-- Every warning of a Newton run (successful or not) is a genuine degeneracy notice of a request
-of `es`, raised at some visited assignment. -/
+/-- Every warning of a Newton run (successful or not) names a request of `es` of a kind that can
+raise the flag (`DegenerateFrom`, weak form).  That it was raised at a VISITED assignment, and the
+exact list of notices, is `newtonLoop_warnings_visited` / `newtonLoop_warnings_eq`
+(`Ezpz/Proofs/Visited.lean`). -/
 theorem newtonLoop_warnings (es : List (Entry α)) (cfg : Config α)
     (solve : Nat → List (Triplet α) → List α → Except SolveError (List α)) (n : Nat) :
     ∀ (fuel k : Nat) (x : List α) (ws : List (Warning α)), x.length = n →
